@@ -1319,11 +1319,28 @@ carquet_status_t carquet_read_next_page(
         to_copy = max_values < 0 ? 0 : (int32_t)max_values;
     }
 
-    /* Copy values from decoded buffers */
+    /* Copy values from decoded buffers. decoded_values is dense: it holds only
+     * the non-null values of the page, in order. The rows already delivered
+     * and the rows delivered now therefore map to the non-null counts of
+     * their definition levels, not to row indices. */
     size_t value_size = get_value_size(reader->type, reader->type_length);
-    size_t offset = (size_t)reader->page_values_read * value_size;
+    size_t dense_start = (size_t)reader->page_values_read;
+    size_t dense_count = (size_t)to_copy;
+    if (reader->max_def_level > 0 && reader->decoded_def_levels) {
+        const int16_t* defs = reader->decoded_def_levels;
+        dense_start = 0;
+        dense_count = 0;
+        for (int32_t i = 0; i < reader->page_values_read; i++) {
+            if (defs[i] == reader->max_def_level) dense_start++;
+        }
+        for (int32_t i = 0; i < to_copy; i++) {
+            if (defs[reader->page_values_read + i] == reader->max_def_level) dense_count++;
+        }
+    }
 
-    memcpy(values, (uint8_t*)reader->decoded_values + offset, (size_t)to_copy * value_size);
+    memcpy(values, (uint8_t*)reader->decoded_values + dense_start * value_size,
+           dense_count * value_size);
+    reader->last_read_non_null = (int64_t)dense_count;
 
     if (def_levels) {
         memcpy(def_levels, reader->decoded_def_levels + reader->page_values_read,
